@@ -8,13 +8,14 @@ import (
 	"encoding/hex"
 	"fmt"
 	"math/big"
+	"os"
 	"sort"
 	"strings"
 	"time"
 
 	sdkmath "cosmossdk.io/math"
-	codectypes "github.com/cosmos/cosmos-sdk/codec/types"
 	abci "github.com/cometbft/cometbft/abci/types"
+	codectypes "github.com/cosmos/cosmos-sdk/codec/types"
 	sdk "github.com/cosmos/cosmos-sdk/types"
 	banktypes "github.com/cosmos/cosmos-sdk/x/bank/types"
 
@@ -103,17 +104,17 @@ type txObs struct {
 }
 
 type blockObs struct {
-	Idx     int
-	Blk     *Block
-	Prev    *Snap
-	Cur     *Snap
-	MPrev   *Model // model before the block
-	Txs     []txObs
-	Begin   []Call
-	BeginFx BlockEffects
-	Resp    *abci.ResponseFinalizeBlock
-	AppHash string
-	PreRes  []preObs
+	Idx      int
+	Blk      *Block
+	Prev     *Snap
+	Cur      *Snap
+	MPrev    *Model // model before the block
+	Txs      []txObs
+	Begin    []Call
+	BeginFx  BlockEffects
+	Resp     *abci.ResponseFinalizeBlock
+	AppHash  string
+	PreRes   []preObs
 	AllCalls []Call
 	AllHooks []HookCall
 }
@@ -138,9 +139,9 @@ type execState struct {
 	foreign map[string]map[string]*big.Int
 	lines   []string
 	// cross-block oracle memory
-	everBids    map[string]SBid    // "auc/bid" -> first seen record
+	everBids    map[string]SBid // "auc/bid" -> first seen record
 	immut       map[uint64]SAuction
-	releasedAt  map[string]int     // "auc/ns" -> block index of the release transfer
+	releasedAt  map[string]int // "auc/ns" -> block index of the release transfer
 	statusHist  map[uint64][]int
 	capAtAccept map[string]string
 	lin         *linRecorder
@@ -410,6 +411,12 @@ func Execute(s *Schedule, opt ExecOpts) (res *RunResult) {
 		e.shadows = append(e.shadows, sh)
 	}
 	e.lin = newLinRecorder()
+	if os.Getenv("VERIF_NO_MODEL") != "" {
+		// measurement mode (DESIGN §12): the refinement against the reference model is switched off from
+		// the start; only the oracles that read the implementation's own records, transfers and
+		// responses decide
+		e.modelOff = true
+	}
 	if node.Trace != nil {
 		node.Trace.Take()
 	}
